@@ -281,6 +281,13 @@ pub fn to_hex(value: f64) -> String {
         _ => {
             const BITS: i16 = 52;
             const FRACT_MASK: u64 = 0xf_ffff_ffff_ffff;
+            // integer_decode scales a subnormal to exponent -1023; float.hex() keeps -1022 and a
+            // leading digit 0 (the mantissa of a subnormal is even, nothing is lost)
+            let (mantissa, exponent) = if value.is_subnormal() {
+                (mantissa >> 1, exponent + 1)
+            } else {
+                (mantissa, exponent)
+            };
             format!(
                 "{}{:#x}.{:013x}p{:+}",
                 sign_fmt,
